@@ -107,15 +107,27 @@ def run(ctx):
                 violations.append({"replay": rp})
         cov["deep_repeat_searches"] = len(flat)
         cov["repeat_runs"] = runs
+        # the built-in bench (the signature the property names): two processes at the same time (quick), plus two more one after
+        # the other (thorough); the `nodes` line must be identical
+        procs = [subprocess.Popen([C.ENGINE, "bench"], stdout=subprocess.PIPE, stderr=subprocess.DEVNULL, text=True)
+                 for _ in range(2)]
+        totals = []
+        for p in procs:
+            try:
+                so, _ = p.communicate(timeout=1500)
+            except subprocess.TimeoutExpired:
+                p.kill()
+                so = ""
+            totals.append([l for l in so.splitlines() if l.endswith(" nodes")])
         if ctx["tier"] == "thorough":
-            totals = []
             for _ in range(2):
                 p = subprocess.run([C.ENGINE, "bench"], capture_output=True, text=True, timeout=3000)
                 totals.append([l for l in p.stdout.splitlines() if l.endswith(" nodes")])
-            cov["bench_node_totals"] = totals
-            if totals[0] != totals[1]:
-                rp = C.write_replay(prop, {"kind": "bench node total differs between runs", "totals": totals})
-                violations.append({"replay": rp})
+        cov["bench_node_totals"] = totals
+        if any(t != totals[0] for t in totals) or not totals[0]:
+            rp = C.write_replay(prop, {"kind": "bench node total differs between runs (or bench printed no node total)", "totals": totals,
+                                       "replay_cmd": "%s bench | grep nodes; %s bench | grep nodes" % (C.ENGINE, C.ENGINE)})
+            violations.append({"replay": rp})
     cov["rule"] = ("fixed depth 1..3(4) from a fresh cache and sequences of searches sharing the cache: EXACT equality of "
                    "best move, score, node count, seldepth, info lines and the complete cache-write trace with the Coq model; "
                    "the same with NO time limit while the clock is made to jump by 10^10 ms in mid-search (guarded clock-skew hook): nothing may change; "
